@@ -231,6 +231,8 @@ def run_shard(ctx):
             s = np.array(seq, dtype=float) if idx % 3 else np.array(seq, dtype=np.int64)
             if idx % 5 == 0 and L <= 6:
                 s = np.array(seq, dtype=float) * 3e-10       # micro amplitude: same sign pattern, exact zeros stay zeros
+            elif idx % 7 == 0 and L <= 7:
+                s = np.array(seq, dtype=float) * (1e-200 if idx % 2 else 1e200)     # products of two samples under/overflow
             nontriv = len(set(seq)) > 1
             n_enum += 1
             n_nt += nontriv
@@ -270,7 +272,10 @@ def run_shard(ctx):
             # library's tolerance filter is quadratic in the number of crossings)
         x, cls = random_series(rng, n)
         r = rng.random()
-        if r < 0.2:         # micro-amplitude records: non-zero samples far below 1e-8 (exact zeros stay exact)
+        if r > 0.9:         # numerically special scales (see gen.special_scale)
+            x, suffix = gen.special_scale(rng, x)
+            cls += suffix
+        elif r < 0.2:         # micro-amplitude records: non-zero samples far below 1e-8 (exact zeros stay exact)
             x = x * 10 ** rng.uniform(-13, -7)
             cls += '-micro'
         elif r < 0.26:      # huge dynamic range inside one record (one sample 1e3..1e12 times larger than the rest)
